@@ -5,7 +5,7 @@
    error travelling up -- never escapes), Fatal (FErr ..) (a pybtex error left the reader),
    Fatal FCrash (a foreign Python exception), Fatal FFuel (the model ran out of fuel). *)
 From Pybtex Require Import Base.Prelude Base.PyChar Base.PyStr Model.BibtexStr Model.Names
-  Model.Scanner Model.BibParser Model.BibParserOpt Proofs.Scanner Proofs.BibParser Proofs.BibStrict Proofs.BibStrictFirst Proofs.BibValues Proofs.BibEntry Proofs.BibParserOpt.
+  Model.Scanner Model.BibParser Model.BibParserOpt Proofs.Scanner Proofs.BibParser Proofs.BibStrict Proofs.BibStrictFirst Proofs.BibValues Proofs.BibEntry Proofs.BibParserOpt Proofs.BibStrictOpt.
 
 (* TOTALITY: for every text whatsoever and every reporting mode, reading terminates within
    the model's fuel (|text|+1 per loop), raises no foreign exception (IndexError in
@@ -122,6 +122,15 @@ Print Assumptions errors_located_options.
 Theorem capture_equals_nonstrict_options : forall o text, parse_bib_o o NonStrict text = parse_bib_o o Capture text.
 Proof. exact parse_bib_o_ns. Qed.
 Print Assumptions capture_equals_nonstrict_options.
+
+Theorem strict_raises_first_options : forall o text,
+  (forall d s, parse_bib_o o Capture text = Ret d s -> p_errs s = [] -> parse_bib_o o Strict text = Ret d s) /\
+  (forall c l d s, parse_bib_o o Strict text = Fatal (FErr c l) -> parse_bib_o o Capture text = Ret d s ->
+     exists e rest, p_errs s = e :: rest /\ e_cls e = c /\ e_line e = l) /\
+  (forall d s, parse_bib_o o Strict text = Ret d s -> parse_bib_o o Capture text = Ret d s /\ p_errs s = []) /\
+  (forall d s, parse_bib_o o Capture text = Ret d s -> p_errs s <> [] -> exists c l, parse_bib_o o Strict text = Fatal (FErr c l)).
+Proof. exact strict_first_o. Qed.
+Print Assumptions strict_raises_first_options.
 
 (* non-vacuity *)
 Definition ex_text : str := s2l "@a{k, t = {x} # y}
